@@ -386,29 +386,35 @@ Definition sync_full (g : cfg) (os oc : list N) (st : lstate) (c : cat) (fs : li
 
 (* ------------------------------------------------------------------ local changes *)
 
+(* RPanic: the implementation panicked. No model function returns it (the nil dereference on
+   placeholders was repaired in 9a2a9bf); a panic of the implementation is therefore a mismatch. *)
 Inductive res := ROk | RErr | RPanic.
 
-(* setServiceStateLocked (through addServiceLocked).  IsSame on a placeholder's nil Service is
-   a nil dereference. *)
+(* setServiceStateLocked (through addServiceLocked): the new entry is in sync only when it
+   replaces an entry that was itself in sync and not marked deleted, by the same definition.
+   A placeholder (definition nil) is never "the same". *)
+Definition same_svc (d : svc) (old : sentry) : bool :=
+  match se_def old with Some od => bool_decide (d = od) | None => false end.
+
 Definition add_service (id : N) (d : svc) (tok : N) (loc : bool) (st : lstate) : lstate * res :=
   match l_svcs st !! id with
   | Some old =>
-      match se_def old with
-      | Some od => (LS (l_node st) (<[id := SE (Some d) tok (bool_decide (d = od)) false loc]> (l_svcs st)) (l_chks st), ROk)
-      | None => (st, RPanic)
-      end
+      (LS (l_node st)
+          (<[id := SE (Some d) tok (se_sync old && negb (se_del old) && same_svc d old) false loc]> (l_svcs st))
+          (l_chks st), ROk)
   | None => (LS (l_node st) (<[id := SE (Some d) tok false false loc]> (l_svcs st)) (l_chks st), ROk)
   end.
 
 (* addCheckLocked + setCheckStateLocked.  "service exists" looks at the map, deleted or not. *)
+Definition same_chk (d : chk) (old : centry) : bool :=
+  match ce_def old with Some od => bool_decide (d = od) | None => false end.
+
 Definition add_check (id : N) (d : chk) (tok : N) (loc : bool) (st : lstate) : lstate * res :=
   if negb (N.eqb (ck_sid d) 0) && negb (is_some (l_svcs st !! ck_sid d)) then (st, RErr)
   else match l_chks st !! id with
        | Some old =>
-           match ce_def old with
-           | Some od => (LS (l_node st) (l_svcs st) (<[id := CE (Some d) tok (bool_decide (d = od)) false loc]> (l_chks st)), ROk)
-           | None => (st, RPanic)
-           end
+           (LS (l_node st) (l_svcs st)
+               (<[id := CE (Some d) tok (ce_sync old && negb (ce_del old) && same_chk d old) false loc]> (l_chks st)), ROk)
        | None => (LS (l_node st) (l_svcs st) (<[id := CE (Some d) tok false false loc]> (l_chks st)), ROk)
        end.
 
